@@ -482,6 +482,9 @@ fn branch_state_programs() -> Vec<(String, Vec<f64>, String)> {
     // a delay whose maximum is not integral, followed by another cell: the run-time length must be the published one
     v.push(("fn cnt(){ self + 1.0 }\nfn dsp(){\n  delay(2.5, 100.0, 1.0)*0.0 + cnt()\n}\n".to_string(), vec![1.0, 2.0, 3.0, 4.0, 5.0, 6.0, 7.0, 8.0], "delay with a fractional maximum in front of a counter".to_string()));
     v.push(("fn cnt(){ self + 1.0 }\nfn dsp(){\n  delay(3.75, 9.0, 2.0)*0.0 + cnt() + delay(1.5, 7.0, 1.0)*0.0\n}\n".to_string(), vec![1.0, 2.0, 3.0, 4.0, 5.0, 6.0, 7.0, 8.0], "two delays with fractional maxima around a counter".to_string()));
+    // the then-branch holds more state than the else-branch (the larger cursor move must reach the epilogue)
+    v.push(("fn cnt(){ self + 1.0 }\nfn gate(c){\n  if (c) { cnt() } else { 0.0 }\n}\nfn dsp(){\n  gate(1.0)\n}\n".to_string(), vec![1.0, 2.0, 3.0, 4.0], "stateful then-branch, stateless else-branch, then path".to_string()));
+    v.push(("fn cnt(){ self + 1.0 }\nfn gate(c){\n  if (c) { cnt() + cnt() } else { cnt() }\n}\nfn dsp(){\n  let a = gate(0.0)\n  let b = cnt()\n  a + b*100.0\n}\n".to_string(), vec![101.0, 202.0, 303.0, 404.0], "then-branch larger than else-branch, else path, a counter behind the call".to_string()));
     // `self` is an aggregate with a sum-typed member (tag + payload words), another cell behind it: the published size of the
     // feed cell must be the run-time size of the value
     v.push(("type Opt = Nothing | Just(float)\nfn hold(x)->(float,Opt){\n  let (n, prev) = self\n  let p = match prev {\n    Nothing => 0.0,\n    Just(v) => v\n  }\n  (n + p, Just(x))\n}\nfn dsp(){\n  let (a,_o) = hold(3.0)\n  let m = mem(a)\n  a + m\n}\n".to_string(), vec![0.0, 3.0, 9.0, 15.0], "tuple self with a sum-typed member in front of a mem".to_string()));
@@ -1028,6 +1031,23 @@ fn main() {
         }
         return;
     }
+    if args.get(1).map(|s| s.as_str()) == Some("heap-growth") {
+        // known findings F22-F24 (C12, boundedness clause): boxed values whose reference count never returns to zero
+        let idx: usize = args.get(2).and_then(|s| s.parse().ok()).unwrap_or(0);
+        let decl = "type rec L = Nil | Cons(float, L)\n";
+        let progs = [
+            (format!("{decl}fn id(l) {{ 1.0 }}\nfn dsp() {{\n  let l = Cons(1.0, Nil)\n  id(l)\n}}\n"), "a let-bound boxed list is passed to a function that ignores it"),
+            (format!("{decl}fn dsp() {{\n  let l = Cons(1.0, Nil)\n  match l {{\n    Cons(h, _) => h,\n    Nil => 0.0\n  }}\n}}\n"), "a let-bound boxed list is matched against a constructor pattern with a payload"),
+            (format!("{decl}fn dsp() {{\n  let l = Cons(1.0, Cons(2.0, Nil))\n  1.0\n}}\n"), "a constructor application is passed directly as the argument of another constructor"),
+        ];
+        let (src, desc) = &progs[idx.min(progs.len() - 1)];
+        match heap_after(src, 64) {
+            Ok((a, b)) if a == b => println!("HOLDS"),
+            Ok((a, b)) => println!("FAILS C12[live heap objects after sample N == after sample 2N] `{desc}`: {a} live heap objects after 64 samples, {b} after 128"),
+            Err(e) => println!("HOLDS (program rejected: {e})"),
+        }
+        return;
+    }
     if args.get(1).map(|s| s.as_str()) == Some("drop-shared") {
         let only: Option<usize> = args.get(2).and_then(|s| s.parse().ok());
         for (i, (pattern, hb)) in dropshared::cases().iter().enumerate() {
@@ -1070,6 +1090,13 @@ fn main() {
             (Ok(a), Ok(b)) if *a == expect && *b == expect => println!("HOLDS"),
             _ => println!("FAILS C11[each task runs exactly once at its sample ..; the VM and WASM runtimes agree] closures created in dsp capturing the current sample index, scheduled 2.5 samples ahead: expected {expect:?}, vm={vm:?}, wasm={wasm:?}"),
         }
+        return;
+    }
+    if args.get(1).map(|s| s.as_str()) == Some("heap-src") {
+        // developer aid: live heap objects / closures of a program file after n and 2n samples
+        let src = std::fs::read_to_string(&args[2]).unwrap();
+        let n: usize = args.get(3).and_then(|s| s.parse().ok()).unwrap_or(64);
+        println!("heap {:?} (closures, heap) {:?}", heap_after(&src, n), live_counts(&src, n));
         return;
     }
     if args.get(1).map(|s| s.as_str()) == Some("run-src") {
